@@ -23,7 +23,7 @@ def run(name):
     shutil.rmtree(scratch)
     lines = [l.strip() for l in r.stdout.split('\n') if 'failed obligation' in l or l.startswith('UNDECIDED')]
     return name, prop, r.returncode, lines, meta
-with cf.ThreadPoolExecutor(4) as ex:
+with cf.ThreadPoolExecutor(int(os.environ.get('SEED_JOBS', '4'))) as ex:
     new = list(ex.map(run, seeds))
 cache = json.load(open(CACHE)) if os.path.exists(CACHE) and sel else {}
 for name, prop, rc, lines, meta in new:
